@@ -101,6 +101,30 @@ def regenerate():
     return ok, "\n".join(msgs), stale
 
 
+def edited_files():
+    """files of the repository's working tree that differ from its HEAD (None: not known — not a git tree, or the
+    tree is clean, i.e. the change was committed: then nothing can be said about where it is)"""
+    try:
+        rc, out, _ = sh(["git", "-C", REPO, "status", "--porcelain", "--untracked-files=all"])
+    except OSError:
+        return None
+    if rc != 0:
+        return None
+    files = [l[3:].split(" -> ")[-1].strip() for l in out.splitlines() if len(l) > 3]
+    return files or None
+
+
+def anchor_files(pid):
+    try:
+        for l in open(os.path.join(VERIF, "properties.jsonl")):
+            d = json.loads(l)
+            if d.get("id") == pid:
+                return set(d.get("anchors", {}).get("files", []))
+    except (OSError, ValueError):
+        pass
+    return set()
+
+
 def generated_deps(pid, modules):
     """file names under SemaModel/Generated that the given Lean modules and the property's model driver
     import, directly or not"""
@@ -278,9 +302,15 @@ def main(argv):
         if not ok:
             # a tool could not read the working tree.  That breaks the tie of THIS property only if one of the
             # generated files it depends on was not regenerated (nothing known to be stale: assume it does)
+            # … or if a file the property is anchored in was edited: some extractor cannot follow that edit, and the
+            # extractors of this property may simply not look at the part that changed (a change of cluster/sync.go that
+            # only tools/facts_c14 refuses still concerns C13, which is anchored there too)
             hit = sorted(stale & generated_deps(pid, spec["lean_modules"])) if stale else ["?"]
+            if not hit:
+                edited = edited_files()
+                hit = ["?"] if edited is None else sorted(set(edited) & anchor_files(pid))
             if hit:
-                broken.append(("translator", "tools/go2lean|facts", msg + "\nnot regenerated, and used by this property: " + ", ".join(hit)))
+                broken.append(("translator", "tools/go2lean|facts", msg + "\nnot regenerated and used by this property / edited files this property is anchored in: " + ", ".join(hit)))
             else:
                 log("a fact extractor / the translator failed on files this property does not depend on (not regenerated: " + ", ".join(sorted(stale)) + "); see the checks of the properties that use them")
         # proof obligations
